@@ -222,9 +222,16 @@ def _lq_models(ctx):
     return mcs
 
 
+def _ip_model(ctx):
+    # ip("...") filters on IPv4: patterns x addresses around their edges x the ways an address stands in a line / a label
+    return dict(name="ip", module="MC_Ip", consts=dict(Pools=V.tla_str(T(ctx, "quick", "full"))),
+                invariants=["WellFormed", "MatchIsInterval", "TextRoundTrip", "ScannerFindsIt", "NearAddressesAreNone", "LineFilterMeaning",
+                            "NegationIsComplement", "LabelFilterMeaning", "NeverChangesLine"])
+
+
 @prop("C01")
 def c01(ctx, replay):
-    return std(ctx, "C01", mc=_lq_models(ctx), harness_cmd="logq", harness_opts=["mode=select"], trace_module="Trace_LogQuery",
+    return std(ctx, "C01", mc=_lq_models(ctx) + [_ip_model(ctx)], harness_cmd="logq", harness_opts=["mode=select"], trace_module="Trace_LogQuery",
                trace_consts=dict(CheckStreams=False), nrand=T(ctx, 1500, 25000), replay=replay, nontrivial=_lq_nontrivial, exhaustive=True, chunk_events=20000,
                rule="step 1: extractQueryConditions (offload split with barriers) + storage + entryIterator loop vs declarative "
                     "LogResult for every record set (<=2-3 logfmt records with attributes), pipeline (<=2-3 stages from line "
